@@ -1,4 +1,5 @@
 import PvModel.Props.C22
+import PvModel.Props.C22Global
 #print axioms Pv.C22_take
 #print axioms Pv.C22_takes
 #print axioms Pv.C22_with_diseq
@@ -11,3 +12,10 @@ import PvModel.Props.C22
 #print axioms Pv.C22_step_tree
 #print axioms Pv.C22_count_tree
 #print axioms Pv.C22_count_tree_init
+#print axioms Pv.C22_run_any
+#print axioms Pv.C22_run_constraints
+#print axioms Pv.C22_ops
+#print axioms Pv.C22_builders
+#print axioms Pv.C22_defs
+#print axioms Pv.C22_program
+#print axioms Pv.C22_query
